@@ -173,6 +173,9 @@ pub struct TimeCase {
   /// authentic token for carrying another value; the token of this case carries the expected one
   #[serde(default)]
   pub after_failed_check: bool,
+  /// just before the judged parse, THIS token was parsed on this thread by a parser whose application validator panicked
+  #[serde(default)]
+  pub after_panicking_validator: bool,
 }
 
 fn written_name(name: &str, how: u8) -> String {
@@ -343,6 +346,20 @@ impl Sub for DefaultTimeRules {
         cl.tag("check_claim-on-time-claim-too");
       }
     }
+    if c.after_panicking_validator {
+      let bomb = ClaimSpec::Custom("no-such-claim".into(), Value::Null);
+      for f in [VALIDATOR_PANICS_TEXT, VALIDATOR_PANICS_VALUE] {
+        let _ = crate::engine::catch(|| {
+          let mut other = new_parser(p, Layer::Prelude);
+          if let Some(fo) = c.footer.as_deref() {
+            other.footer(fo);
+          }
+          let _ = other.validate(&bomb, f);
+          other.parse(&token, &lk).is_ok()
+        });
+      }
+      cl.tag("after-a-panicking-validator-on-this-token");
+    }
     let r = parser.parse(&token, &lk);
     let (mut we, mut wn) = (want_exp(&c_exp, exp_strict), want_nbf(&c_nbf, nbf_strict));
     if let Some((which, v, (val, strict), _)) = &dup {
@@ -491,8 +508,10 @@ fn extras() -> BoxedStrategy<Vec<(String, Value)>> {
     1 => Just(json!("\"exp\":")),
     1 => stamp(),
   ];
-  let name = prop_oneof![3 => "[a-z]{1,5}".prop_map(|s: String| s), 1 => Just("renewed_from".to_string()), 1 => Just("Exp".to_string()), 1 => Just("exp ".to_string()), 1 => Just("NBF".to_string()), 1 => Just("expires".to_string()), 1 => Just("nbf\u{0}".to_string()), 1 => Just("ex".to_string())];
-  proptest::collection::vec((name, prop_oneof![3 => gen::json_leaf(), 2 => decoy]), 0..4).boxed()
+  let name = prop_oneof![3 => "[a-z]{1,5}".prop_map(|s: String| s), 2 => Just("iat".to_string()), 1 => Just("jti".to_string()), 1 => Just("renewed_from".to_string()), 1 => Just("Exp".to_string()), 1 => Just("exp ".to_string()), 1 => Just("NBF".to_string()), 1 => Just("expires".to_string()), 1 => Just("nbf\u{0}".to_string()), 1 => Just("ex".to_string())];
+  // (an `iat` of any instant - also far in the future - says nothing about whether the token may be used)
+  let far = prop_oneof![Just(serde_json::json!("2999-01-01T00:00:00Z")), Just(serde_json::json!("2035-06-01T12:00:00+02:00")), Just(serde_json::json!("1999-01-01T00:00:00Z")), Just(serde_json::json!(1893456000))];
+  proptest::collection::vec((name, prop_oneof![3 => gen::json_leaf(), 2 => decoy, 2 => far]), 0..4).boxed()
 }
 
 fn dup(for_exp_only: bool) -> BoxedStrategy<Option<(u8, TimeVal, bool)>> {
@@ -506,13 +525,13 @@ fn dup(for_exp_only: bool) -> BoxedStrategy<Option<(u8, TimeVal, bool)>> {
 
 fn case(pid: &'static str, proto: Proto) -> BoxedStrategy<TimeCase> {
   let (e, n): (BoxedStrategy<TimeVal>, BoxedStrategy<TimeVal>) = if pid == "C11" { (time_val(true), Just(TimeVal::Absent).boxed()) } else { (prop_oneof![3 => Just(TimeVal::Absent), 2 => past(), 3 => future(), 1 => not_a_timestamp().prop_map(TimeVal::NotATimestamp), 1 => Just(TimeVal::Null)].boxed(), time_val(false)) };
-  (gen::bytes32(), e, n, extras(), prop_oneof![Just(None), Just(Some("f".to_string()))], prop_oneof![4 => Just(0u8), 1 => Just(1u8), 1 => Just(2u8)], dup(pid == "C11"), prop_oneof![5 => Just(0u8), 1 => 1u8..5], prop_oneof![5 => Just(false), 1 => Just(true)]).prop_map(move |(seed, exp, nbf, extra, footer, also_check, dup, escaped_names, after_failed_check)| TimeCase { proto, seed, exp, nbf, extra, footer, also_check, dup, escaped_names, after_failed_check }).boxed()
+  (gen::bytes32(), e, n, extras(), prop_oneof![Just(None), Just(Some("f".to_string()))], prop_oneof![4 => Just(0u8), 1 => Just(1u8), 1 => Just(2u8)], dup(pid == "C11"), prop_oneof![5 => Just(0u8), 1 => 1u8..5], prop_oneof![5 => Just(false), 1 => Just(true)], prop_oneof![7 => Just(false), 1 => Just(true)]).prop_map(move |(seed, exp, nbf, extra, footer, also_check, dup, escaped_names, after_failed_check, after_panicking_validator)| TimeCase { proto, seed, exp, nbf, extra, footer, also_check, dup, escaped_names, after_failed_check, after_panicking_validator }).boxed()
 }
 
 /// deterministic grid: every UTC offset hour -23..=23 (+ :59) x fractional digits x {past, future} near the boundary margins
 fn grid(pid: &'static str, proto: Proto) -> Vec<TimeCase> {
   let mut out = vec![];
-  let mk = |exp: TimeVal, nbf: TimeVal| TimeCase { proto, seed: vec![5u8; 32], exp, nbf, extra: vec![("sub".into(), json!("grid"))], footer: None, also_check: 0, dup: None, escaped_names: 0, after_failed_check: false };
+  let mk = |exp: TimeVal, nbf: TimeVal| TimeCase { proto, seed: vec![5u8; 32], exp, nbf, extra: vec![("sub".into(), json!("grid"))], footer: None, also_check: 0, dup: None, escaped_names: 0, after_failed_check: false, after_panicking_validator: false };
   for h in -23i16..=23 {
     for (mi, digits) in [(0i16, 0u8), (59, 3), (30, 9)] {
       let off = h * 60 + if h < 0 { -mi } else { mi };
@@ -606,6 +625,9 @@ pub fn thread_history(p: Proto, lk: &LibKeys, kind: u8) {
       let _ = new_parser(p, Layer::Generic).parse(&t, lk);
     }
   }
+  if kind >= 5 {
+    let _ = callbacks_misbehave(p, lk, 7);
+  }
   if kind == 4 || kind >= 5 {
     if let Ok(t) = core_build(lk, nonce, "{\"exp\":\"2999-01-01T00:00:00Z\"}", None, None) {
       let mut broken = t.clone();
@@ -646,13 +668,18 @@ impl Sub for ClockCrossing {
     };
     cl.tag(p.label());
     cl.nontrivial(true);
-    if c.before > 0 {
+    if c.before > 0 && c.before != 7 {
       thread_history(p, &lk, c.before);
       cl.tag(format!("thread-history:{}", c.before.min(5)));
     }
     let mut parser = new_parser(p, Layer::Prelude);
     let first = parser.parse(&token, &lk); // inside the margin: not judged
     cl.tag(format!("first-parse:{}", if first.is_ok() { "accepted" } else { "rejected" }));
+    if c.before == 7 {
+      // application callbacks panic on this thread right before the wait: whatever they leave behind must not outlive them
+      let _ = callbacks_misbehave(p, &lk, 1);
+      cl.tag("thread-history:callbacks-panic-before-the-wait");
+    }
     // wait until the instant is at least 2.1 s in the past
     let target = std::time::Duration::from_millis(c.lead_ms as u64 + 2100);
     let elapsed = {
@@ -684,6 +711,90 @@ impl Sub for ClockCrossing {
   }
 }
 
+// ---------------------------------------------------------------- many parsers validating at the same time
+
+/// `threads` parsers are held inside an application validator (each on its own thread, all at once) while one more
+/// default parser judges tokens: what the others are doing is none of its business.
+#[derive(Clone, Debug, Serialize, Deserialize)]
+pub struct BusyCase {
+  pub proto: Proto,
+  pub threads: u8,
+}
+pub struct WhileOthersValidate {
+  pub pid: &'static str,
+}
+
+static GATE_OPEN: std::sync::atomic::AtomicBool = std::sync::atomic::AtomicBool::new(false);
+static WAITING: std::sync::atomic::AtomicUsize = std::sync::atomic::AtomicUsize::new(0);
+fn validator_that_waits(_k: &str, _v: &Value) -> Result<(), rusty_paseto::prelude::PasetoClaimError> {
+  WAITING.fetch_add(1, std::sync::atomic::Ordering::SeqCst);
+  let t0 = std::time::Instant::now();
+  while !GATE_OPEN.load(std::sync::atomic::Ordering::SeqCst) && t0.elapsed() < std::time::Duration::from_secs(5) {
+    std::thread::sleep(std::time::Duration::from_millis(1));
+  }
+  Ok(())
+}
+
+impl Sub for WhileOthersValidate {
+  type Case = BusyCase;
+  fn name(&self) -> String {
+    format!("{}/while-other-parsers-validate", self.pid)
+  }
+  fn check(&self, c: &BusyCase, cl: &mut Classes) -> Verdict {
+    use rusty_paseto::prelude::ValidatorFn;
+    static SERIAL: std::sync::Mutex<()> = std::sync::Mutex::new(());
+    let _one_at_a_time = SERIAL.lock().unwrap_or_else(|e| e.into_inner());
+    let p = c.proto;
+    let km = keys::material(p, &[8u8; 32]);
+    let lk = km.lib().expect("valid key");
+    let nonce = &[4u8; 32][..if p == Proto::V2L { 24 } else { 32 }];
+    let mk = |payload: &str| core_build(&lk, nonce, payload, None, None).ok();
+    let (busy, fut, none, past, nbf_future) = match (mk("{\"jti\":\"busy\"}"), mk("{\"exp\":\"2999-01-01T00:00:00Z\"}"), mk("{\"sub\":\"no exp\"}"), mk("{\"exp\":\"1999-01-01T00:00:00Z\"}"), mk("{\"nbf\":\"2999-01-01T00:00:00Z\"}")) {
+      (Some(a), Some(b), Some(c2), Some(d), Some(e)) => (a, b, c2, d, e),
+      _ => return Verdict::Discard,
+    };
+    GATE_OPEN.store(false, std::sync::atomic::Ordering::SeqCst);
+    WAITING.store(0, std::sync::atomic::Ordering::SeqCst);
+    let n = c.threads.clamp(1, 32) as usize;
+    cl.tag(format!("{}:{}-parsers-inside-a-validator", p.label(), n));
+    cl.nontrivial(true);
+    let jti = ClaimSpec::Jti("busy".into());
+    let verdicts = std::thread::scope(|sc| {
+      for _ in 0..n {
+        sc.spawn(|| {
+          let km2 = keys::material(p, &[8u8; 32]);
+          let lk2 = km2.lib().expect("valid key");
+          let waits: &'static ValidatorFn = &validator_that_waits;
+          let mut parser = new_parser(p, Layer::Generic);
+          let _ = parser.validate(&jti, waits);
+          let _ = parser.parse(&busy, &lk2);
+        });
+      }
+      let t0 = std::time::Instant::now();
+      while WAITING.load(std::sync::atomic::Ordering::SeqCst) < n && t0.elapsed() < std::time::Duration::from_secs(4) {
+        std::thread::sleep(std::time::Duration::from_millis(1));
+      }
+      let r = [&fut, &none, &past, &nbf_future].map(|t| new_parser(p, Layer::Prelude).parse(t, &lk).map(|_| ()).map_err(|e| e.text));
+      GATE_OPEN.store(true, std::sync::atomic::Ordering::SeqCst);
+      r
+    });
+    let [r_fut, r_none, r_past, r_nbf] = verdicts;
+    if let Err(e) = r_fut {
+      vio!("{}:rejected-valid:while-others-validate:exp=future", self.pid; "with {} other parsers inside their validators, the default parser rejected a token whose exp is 2999: {}", n, e);
+    }
+    if let Err(e) = r_none {
+      vio!("{}:rejected-valid:while-others-validate:exp=absent", self.pid; "with {} other parsers inside their validators, the default parser rejected a token without exp / nbf: {}", n, e);
+    }
+    if r_past.is_ok() {
+      vio!("{}:accepted:exp:past:while-others-validate", self.pid; "with {} other parsers inside their validators, the default parser accepted a token that expired in 1999", n);
+    }
+    if r_nbf.is_ok() {
+      vio!("{}:accepted:nbf:future:while-others-validate", self.pid; "with {} other parsers inside their validators, the default parser accepted a token not valid before 2999", n);
+    }
+    Verdict::Pass
+  }
+}
+
 pub fn crossing_cases() -> Vec<CrossingCase> {
   let mut v = vec![];
   for (i, proto) in [Proto::V4L, Proto::V2P, Proto::V3L, Proto::V1L].into_iter().enumerate() {
@@ -693,6 +804,8 @@ pub fn crossing_cases() -> Vec<CrossingCase> {
   for (i, proto) in [Proto::V4L, Proto::V4P, Proto::V2L, Proto::V3L].into_iter().enumerate() {
     v.push(CrossingCase { proto, lead_ms: 1500 + 100 * i as u32, digits: 9 - i as u8, before: [1u8, 2, 5, 4][i] });
   }
+  v.push(CrossingCase { proto: Proto::V4L, lead_ms: 1300, digits: 6, before: 7 });
+  v.push(CrossingCase { proto: Proto::V2P, lead_ms: 1700, digits: 4, before: 7 });
   v
 }
 
@@ -703,6 +816,7 @@ pub fn all_subs(pid: &'static str) -> Vec<DefaultTimeRules> {
 pub fn subs() -> Vec<Box<dyn DynSub>> {
   let mut v: Vec<Box<dyn DynSub>> = all_subs("C11").into_iter().map(|s| Box::new(s) as Box<dyn DynSub>).collect();
   v.push(Box::new(ClockCrossing { pid: "C11" }));
+  v.push(Box::new(WhileOthersValidate { pid: "C11" }));
   v
 }
 
@@ -715,6 +829,8 @@ pub fn run_for(ctx: &Ctx, pid: &'static str, subs: &[DefaultTimeRules]) {
     for case in crossing_cases() {
       jobs.push(Box::new(move || ctx.enumerate(crossing, std::iter::once(case), false)));
     }
+    let busy: &'static WhileOthersValidate = Box::leak(Box::new(WhileOthersValidate { pid }));
+    jobs.push(Box::new(move || ctx.enumerate(busy, [(Proto::V4L, 12u8), (Proto::V2P, 24), (Proto::V3L, 3)].into_iter().map(|(proto, threads)| BusyCase { proto, threads }), false)));
     // the same rules with the wall clock SET to calendar boundaries (child processes under tools/fakeclock.c)
     jobs.push(Box::new(move || ctx.clock_children(&crate::tgen::special_clocks(ctx.quick()))));
   }
